@@ -834,6 +834,14 @@ func (a *A) ruleWriters(rule string, W *types.Named, field string, allowed map[s
 	for _, fn := range a.ModFuncs {
 		for _, st := range storesToField(fn, f) {
 			n := fname(fn)
+			// initialisation of an object the function has just allocated is not a write to shared state
+			// (and whether a zero-valued field of a composite literal is stored at all depends on the
+			// go/ssa version); constructors named in the table still get their obligation
+			if fa, isFA := st.Addr.(*ssa.FieldAddr); isFA && isFreshObject(fa) {
+				if _, listed := allowed[n]; !listed {
+					continue
+				}
+			}
 			if _, ok := seen[n]; !ok {
 				seen[n] = st.Pos()
 				names = append(names, n)
